@@ -102,12 +102,23 @@ def doc_size(doc):
 
 
 def _worker(behs):
+    """Total: a rule that exhausts the worker's (capped) memory is a divergence of the rule, not a failure of the harness."""
+    out, n, docs = {}, [0], {}
+    try:
+        _worker_inner(behs, out, n, docs)
+    except MemoryError:
+        docs.clear()
+        out.setdefault("depth/exhausts-memory", ["measuring small operations exhausts the worker's address space (3 GB): the rule grows what it measures",
+                                                 {"behaviours_in_batch": len(behs), "measurements_before": n[0]}])
+    return out, n[0]
+
+
+def _worker_inner(behs, out, nbox, docs):
     from py_gql import build_schema, process_graphql_query
     from py_gql.lang import parse, print_ast
     from py_gql.utilities import MaxDepthValidationRule
     from py_gql.validation import validate_ast
     schema = build_schema(SCHEMA_SDL)
-    out = {}
     n = 0
     signal.signal(signal.SIGVTALRM, _alarm)
     try:        # a rule that doubles a list on every step exhausts the machine within the time budget: cap the worker's address space
@@ -120,9 +131,9 @@ def _worker(behs):
     # long-lived rule instances and parsed documents: the verdict must not depend on earlier calls (C19 is a pure
     # function of document, variables, limit and filter)
     rules = {}
-    docs = {}
     runaway = 0
     for b in behs:
+        nbox[0] = n
         if runaway >= 3:
             break           # the violation is reported; replaying the rest at BUDGET_S per measurement would take hours
         sel = b["sel"]
@@ -237,7 +248,7 @@ def _worker(behs):
                     guarded(MaxDepthValidationRule(limit), schema, doc, {})        # $v: Boolean! without a value
                 except Exception as e:
                     out.setdefault("depth/raises/%s/variable-without-value" % type(e).__name__, ["depth rule raises", dict(wit, text=text, error=repr(e))])
-    return out, n
+    nbox[0] = n
 
 
 CYCLIC = [
